@@ -40,7 +40,7 @@ def res_str(obs: dict) -> str:
     return {"REJECT": "R"}.get(obs["st"], obs["st"] + ":" + str(obs.get("cls", obs.get("shape", ""))))
 
 
-METHOD = {"a": "lookup", "b": "lookup", "c": "lookup", "x y": "lookup", "a:b": "lookup", "b:a": "lookup", "f(a)": "python", "1": "literal", "2": "literal",
+METHOD = {"0": None, "1": None, "a": "lookup", "b": "lookup", "c": "lookup", "x y": "lookup", "a:b": "lookup", "b:a": "lookup", "f(a)": "python", "2": "literal",
           '"s"': "literal"}
 
 
@@ -49,7 +49,7 @@ def _meth_ok(obs) -> bool:
         for p, mp in zip(obs[side], obs[ms]):
             for t, mt in zip(p, mp):
                 for f, m in zip(t, mt):
-                    if METHOD.get(f, m) != m:
+                    if (METHOD.get(f, m) or m) != m:
                         return False
     return True
 
@@ -127,6 +127,8 @@ def run(ctx: Ctx) -> None:
         _enumerated(ctx, 3, "full", "quick")
         _enumerated(ctx, 5, "colon", "default")
         _enumerated(ctx, 7, "stage", "stage")
+        _enumerated(ctx, 5, "dot", "quick")
+        _enumerated(ctx, 4, "quoted", "default")
     else:
         _enumerated(ctx, 5, "core", "quick")
         _enumerated(ctx, 4, "core", "all")
@@ -135,6 +137,8 @@ def run(ctx: Ctx) -> None:
         _enumerated(ctx, 6, "colon", "quick")
         _enumerated(ctx, 8, "stage", "stage")
         _enumerated(ctx, 7, "stage2", "stage")
+        _enumerated(ctx, 6, "dot", "quick")
+        _enumerated(ctx, 5, "quoted", "quick")
     ctx.exhaustive = True
     from . import c01_trace
 
